@@ -125,7 +125,7 @@ func TestC07(t *testing.T) {
 	curProp = "C07"
 	r := vf.NewRec("C07")
 	defer r.Finish(t)
-	guard.StartWatchdog(*vf.Out, "C07")
+	guard.StartWatchdog(*vf.Out, vf.Label("C07"))
 
 	for _, rf := range r.LoadReplays(t) {
 		var c caseC07
